@@ -77,6 +77,14 @@ pub fn check(prop: &str, tier: &str) -> i32 {
       prop: "C07", rule: "class X cycle", assumptions: vec![],
       configs: vec![Config { name: "x-cycle-td", quick: 80_000, thorough: 2_500_000 }, Config { name: "x-cycle-bu", quick: 60_000, thorough: 2_000_000 }],
     }, tier),
+    "C08" => run_check(&BuildEngine, &CheckSpec {
+      prop: "C08", rule: "store dump vs ledger", assumptions: vec![],
+      configs: vec![Config { name: "td", quick: 60_000, thorough: 2_000_000 }, Config { name: "bu-mixed", quick: 60_000, thorough: 2_000_000 }, Config { name: "td-crash", quick: 40_000, thorough: 1_000_000 }, Config { name: "bu-crash", quick: 40_000, thorough: 1_000_000 }, Config { name: "m-td", quick: 20_000, thorough: 500_000 }, Config { name: "m-bu", quick: 20_000, thorough: 500_000 }],
+    }, tier),
+    "C20" => run_check(&BuildEngine, &CheckSpec {
+      prop: "C20", rule: "class W never aborts; class V aborts judged", assumptions: vec![],
+      configs: vec![Config { name: "v-td", quick: 80_000, thorough: 2_500_000 }, Config { name: "v-bu", quick: 40_000, thorough: 1_500_000 }, Config { name: "td", quick: 40_000, thorough: 1_000_000 }, Config { name: "bu-mixed", quick: 40_000, thorough: 1_000_000 }, Config { name: "bu-big", quick: 20_000, thorough: 500_000 }],
+    }, tier),
     _ => { eprintln!("no check for property {prop}"); 2 }
   }
 }
@@ -93,6 +101,8 @@ pub fn configs_of(prop: &str) -> Vec<&'static str> {
     "C04" => vec!["bu-big", "bu-pure", "bu-allroots", "bu-big-allroots"],
     "C10" | "C11" => vec!["short", "long"],
     "C17" => vec!["td", "bu-pure"],
+    "C20" => vec!["v-td", "v-bu", "td", "bu-mixed", "bu-big"],
+    "C08" => vec!["td", "bu-mixed", "td-crash", "bu-crash", "m-td", "m-bu"],
     "C05" => vec!["x-hidden-td", "x-hidden-bu", "td"],
     "C06" => vec!["x-overlap-td", "x-overlap-bu", "bu-allroots", "bu-crash", "td-crash"],
     "C07" => vec!["x-cycle-td", "x-cycle-bu"],
